@@ -883,6 +883,24 @@ func (tb *TB) slice(x *ssa.Slice) *Term {
 			if n == 1 {
 				return tb.makeSliceAlloc(al, x)
 			}
+			// sliced in full more than once (filled through one slice, read through another):
+			// one buffer seen through several views
+			allFull := n > 1
+			for _, r := range *al.Referrers() {
+				switch y := r.(type) {
+				case *ssa.DebugRef:
+				case *ssa.Slice:
+					if y.Low != nil || y.High != nil || y.Max != nil {
+						allFull = false
+					}
+				default:
+					allFull = false
+				}
+			}
+			if allFull {
+				arr := al.Type().(*types.Pointer).Elem().Underlying().(*types.Array)
+				return tb.makeSliceFrom(x, ssa.NewConst(constant.MakeInt64(arr.Len()), types.Typ[types.Int]))
+			}
 		}
 	}
 	// slice literal: &[N]T{...}[:]
